@@ -7,5 +7,7 @@ mkdir -p work evidence replays
 python3 tools/translate_packets.py
 ( cd coq && coq_makefile -f _CoqProject -o Makefile >/dev/null && timeout 3000 make -j16 ) || echo "setup: coq build incomplete (the checks report what is broken)"
 cp -f /repo/Cargo.lock harness/Cargo.lock
-( cd harness && cargo build --offline -q --bins ) || echo "setup: harness build incomplete (the checks report what is broken)"
+( cd harness && cargo build --offline -q --bins ) || echo "setup: harness build incomplete"
+cp -f /repo/Cargo.lock harness-app/Cargo.lock
+( cd harness-app && cargo build --offline -q --bins ) || echo "setup: harness-app build incomplete"
 echo "setup done"
